@@ -70,7 +70,7 @@ func (vc *VC) eventArg(name string, i int) (string, types.Type) {
 }
 
 // event records a call event if some specification of this VC mentions it.
-func (vc *VC) event(fr *Frame, st *State, full string, args []string) {
+func (vc *VC) event(fr *Frame, st *State, full string, args []string, argTypes ...types.Type) {
 	name := full
 	if vc.eventNames == nil {
 		return
@@ -82,7 +82,19 @@ func (vc *VC) event(fr *Frame, st *State, full string, args []string) {
 	cur := vc.get(st, sv)
 	for i, a := range args {
 		key := fmt.Sprintf("G_arg_%s_%d", sanitizeID(name), i)
-		if _, ok := vc.svSort[key]; ok {
+		if srt, ok := vc.svSort[key]; ok {
+			if srt == "(Array Int Int)" && i < len(argTypes) && argTypes[i] != nil {
+				switch vc.sortOf(argTypes[i]) {
+				case "Slice":
+					a = fmt.Sprintf("(s_arr %s)", a)
+				case "Iface":
+					a = fmt.Sprintf("(if_val %s)", a)
+				case "Bool":
+					a = fmt.Sprintf("(ite %s 1 0)", a)
+				case "Real":
+					continue
+				}
+			}
 			vc.set(st, key, fmt.Sprintf("(store %s %s %s)", vc.get(st, key), cur, a))
 		}
 	}
@@ -109,7 +121,8 @@ var pureModels = map[string]bool{
 	"strconv.ParseFloat": true, "(time.Duration).Seconds": true, "math.Round": true, "math.Ceil": true, "math.Floor": true,
 	"(time.Time).Add": true, "(time.Time).Sub": true, "bytes.Equal": true, "fmt.Errorf": true, "errors.New": true,
 	"fmt.Sprintf": true, "time.Now": true, "time.Since": true, "strings.Join": true, "strings.Split": true, "strings.SplitN": true,
-	"(time.Duration).Milliseconds": true, "errors.Is": true, "(time.Time).Format": true, "time.Parse": true,
+	"(*github.com/bluenviron/mediacommon/v2/pkg/formats/fmp4/seekablebuffer.Buffer).Bytes": true,
+	"(time.Duration).Milliseconds": true, "errors.Is": true, "os.Create": true, "os.Open": true, "bufio.NewWriter": true, "bytes.NewReader": true, "io.NewOffsetWriter": true, "io.NopCloser": true, "(time.Time).Format": true, "time.Parse": true,
 }
 
 func (vc *VC) errIface(st *State, hint string) string {
@@ -253,6 +266,29 @@ func (vc *VC) modelCall(fr *Frame, st *State, callee *ssa.Function, args []strin
 		return []string{r}, true
 	case "fmt.Errorf", "errors.New":
 		return []string{vc.errIface(st, "err")}, true
+	case "(*github.com/bluenviron/mediacommon/v2/pkg/formats/fmp4/seekablebuffer.Buffer).Bytes":
+		// T3: Bytes() is a pure function of the buffer and of the number of buffer mutations so far
+		vc.svDeclare("G_bufepoch", "Int")
+		vc.declareOnceRaw("buf_bytes", "(declare-fun buf_bytes (Int Int) Slice)")
+		r := vc.def("Slice", fmt.Sprintf("(buf_bytes %s %s)", args[0], vc.get(st, "G_bufepoch")), "bytes")
+		vc.typeFacts(st, r, callee.Signature.Results().At(0).Type())
+		vc.fact(st.pc, fmt.Sprintf("(<= (s_len %s) 2305843009213693952)", r))
+		vc.assume("T3 seekablebuffer.Buffer.Bytes is a pure function of the buffer object and the mutation epoch; a buffer holds at most 2^61 bytes")
+		return []string{r}, true
+	case "os.Create", "os.Open":
+		f := vc.fresh("Int", "osfile")
+		e := vc.fresh("Iface", "oserr")
+		vc.typeFacts(st, e, callee.Signature.Results().At(1).Type())
+		vc.fact(st.pc, fmt.Sprintf("(and (>= %s 0) (< %s %s) (=> (= (if_type %s) 0) (> %s 0)))", f, f, vc.allocBound(st), e, f))
+		vc.assume("T3 os.Create/os.Open return a non-nil file when the error is nil")
+		return []string{f, e}, true
+	case "bufio.NewWriter", "bytes.NewReader", "io.NewOffsetWriter", "io.NopCloser":
+		vc.assume("T3 " + full + " returns a non-nil value")
+		if full == "io.NopCloser" {
+			return []string{vc.errIface(st, "nopcloser")}, true
+		}
+		r := vc.alloc(st, "ext")
+		return []string{r}, true
 	case "errors.Is":
 		return []string{vc.fresh("Bool", "errors_is")}, true
 	}
@@ -418,10 +454,17 @@ func (vc *VC) role() string {
 }
 
 func (vc *VC) checkGuard(fr *Frame, st *State, structT types.Type, field int, baseVal ssa.Value, write bool, pos token.Pos) {
+	vc.checkGuardC(fr, st, structT, field, baseVal, write, false, pos)
+}
+
+func (vc *VC) checkGuardC(fr *Frame, st *State, structT types.Type, field int, baseVal ssa.Value, write bool, contents bool, pos token.Pos) {
 	if vc.inSpec > 0 {
 		return
 	}
 	g := vc.eng.guardOf(structT, field)
+	if contents {
+		g = vc.eng.contentsGuardOf(structT, field)
+	}
 	if g == nil {
 		return
 	}
@@ -499,7 +542,7 @@ func (vc *VC) noteLoad(fr *Frame, st *State, addr ssa.Value, loc *Loc, pos token
 func (vc *VC) noteMapWrite(fr *Frame, st *State, m ssa.Value, pos token.Pos) {
 	if u, ok := m.(*ssa.UnOp); ok && u.Op == token.MUL {
 		if structT, field, baseVal, ok := vc.fieldOfAddr(u.X); ok {
-			vc.checkGuard(fr, st, structT, field, baseVal, true, pos)
+			vc.checkGuardC(fr, st, structT, field, baseVal, true, true, pos)
 			if vc.eng.isWaited(structT, field) {
 				vc.svDeclare("G_dirty", "Bool")
 				st.vars["G_dirty"] = "true"
@@ -509,6 +552,11 @@ func (vc *VC) noteMapWrite(fr *Frame, st *State, m ssa.Value, pos token.Pos) {
 }
 
 func (vc *VC) noteMapRead(fr *Frame, st *State, m ssa.Value, pos token.Pos) {
+	if u, ok := m.(*ssa.UnOp); ok && u.Op == token.MUL {
+		if structT, field, baseVal, ok := vc.fieldOfAddr(u.X); ok {
+			vc.checkGuardC(fr, st, structT, field, baseVal, false, true, pos)
+		}
+	}
 }
 
 func (vc *VC) waitPoint(fr *Frame, st *State, kind string) {
